@@ -14,7 +14,8 @@ size of a loaded tile when metadata is asked for (C20.m); a refreshed tile does 
 stamp and size of the tile it replaces (C20.n).
 Added in round 5: only two digit years are expanded (C20.o); public headers only for cacheable WMS-C
 results (C20.p); the fill image is not post-processed (C20.q); late tiles are loaded with metadata
-(C20.r)."""
+(C20.r).
+Added in round 6: the time stamp kept for If-Modified-Since is not cut to whole seconds (C20.s)."""
 import ast
 
 from ..engine import rule
